@@ -11,6 +11,20 @@ def chance(n):
     return st.sampled_from([False] * (n - 1) + [True])
 
 
+def weighted(*pairs):
+    """weighted(( w1, s1 ), ( w2, s2 ), ...): draws from s_i with probability w_i / sum(w).  (Repeating a strategy inside
+    one_of() does not weight it reliably; an explicit integer draw does, and it shrinks toward the first strategy.)"""
+    total = sum(w for w, _ in pairs)
+
+    def pick(k):
+        for w, s in pairs:
+            if k < w:
+                return s
+            k -= w
+        return pairs[-1][1]
+    return st.integers(0, total - 1).flatmap(pick)
+
+
 # ------------------------------------------------------------------ code points / strings
 SPECIAL_CPS = [0x22, 0x5C, 0x2F, 0x08, 0x0C, 0x0A, 0x0D, 0x09, 0x7F, 0x20, 0x01, 0x1F,
                0x80, 0x7FF, 0x800, 0xFFFF, 0xFFFE, 0xD7FF, 0xE000, 0xFDD0, 0x10000, 0x10FFFF, 0x1F600,
